@@ -11,6 +11,9 @@
 (*   CnfOfTheorem   the clause list is not the CNF of the theorem (different truth table from the     *)
 (*                  theorem's conclusion)                                                             *)
 (*   Equisat        the CNF is not equisatisfiable with the formula                                   *)
+(*   DefsFresh      the hypotheses other than the formula are not definitions  v <-> rhs  of pairwise   *)
+(*                  distinct variables that do not occur in the formula and do not depend on themselves *)
+(*                  (then they are not a conservative extension: the theorem is not an encoding)        *)
 (*   ProvesFormula  (prove) the returned theorem is not  |- F                                         *)
 (* Divergences (informational): number of distinct clauses differs from the reference encoding;       *)
 (* the end-to-end prover raised on a tautology.                                                       *)
@@ -22,12 +25,16 @@ Examinable(e) == AllWF(e) /\ Cardinality(SeqAtoms(e.hyps, e.concl)) <= MaxAtoms
 SameSequent(e) == e.chk.concl = e.concl /\ { e.chk.hyps[i] : i \in 1..Len(e.chk.hyps) } = { e.hyps[i] : i \in 1..Len(e.hyps) }
 CheckedOK(e) == e.chk.outcome = "accepted" /\ e.chk.gaps = 0 /\ SameSequent(e)
 
+\* the hypotheses other than the formula itself
+RECURSIVE DefsOf(_, _, _)
+DefsOf(hs, f, i) == IF i > Len(hs) THEN <<>> ELSE (IF SameF(hs[i], f) THEN <<>> ELSE <<hs[i]>>) \o DefsOf(hs, f, i + 1)
 TseitinClauses(e) ==
   IF e.outcome # "ok" THEN {"Returns"}
   ELSE (IF CheckedOK(e) THEN {} ELSE {"Checked"})
        \cup (IF Examinable(e) /\ ~SeqValid(e.hyps, e.concl) THEN {"Valid"} ELSE {})
        \cup (IF Examinable(e) /\ ~CnfEquivalent(e.cnf, e.concl) THEN {"CnfOfTheorem"} ELSE {})
        \cup (IF Cardinality(VarsOf(e.cnf)) <= MaxAtoms /\ ~Equisatisfiable(e.cnf, e.formula) THEN {"Equisat"} ELSE {})
+       \cup (IF AllWF(e) /\ WellFormed(e.formula) /\ ~DefsFresh(DefsOf(e.hyps, e.formula, 1), e.formula) THEN {"DefsFresh"} ELSE {})
 \* the prover may refuse (AssertionError "not provable") or not be run; when it returns, it must return |- F, valid and checked
 ProveClauses(e) ==
   IF e.outcome # "ok" THEN {}
